@@ -1305,3 +1305,263 @@ Lemma slot_nob s : slot_ok s = true -> nob s = true.
 Proof. destruct s; auto. Qed.
 Lemma field_slot s : is_field s = true -> slot_ok s = true.
 Proof. destruct s; auto. Qed.
+
+(** a whole line whose last piece carries fixed text before the closing quote *)
+Lemma zrun2_line' a inner b st s2 s2' :
+  zbare st = true -> nosq a = true -> nosq b = true -> run_in (final zspec_step s2 a) inner = Some s2' ->
+  zrun2 st s2 (Zx (39 :: a) :: inner ++ [Zx (b ++ lit "' \")]) = Some (ZBS, final zspec_step s2' b).
+Proof.
+  intros Hst Ha Hb Hin. destruct (sq_lits a Ha) as [F L]. destruct (sq_lits b Hb) as [Fb Lb].
+  assert (E : final sh_step st (39 :: a) = ZSQ /\ lits (events sh_step st (39 :: a)) = a).
+  { destruct st; try discriminate; (split; [exact F|]);
+      change (lits (Qm 39 :: events sh_step ZSQ a) = a); cbn [lits]; exact L. }
+  cbn [zrun2]. destruct E as [E1 E2]. rewrite E1, E2. rewrite (zrun2_in inner _ s2' _ Hin). cbn [zrun2].
+  rewrite final_app, events_app, lits_app, Fb, Lb. f_equal. f_equal. rewrite app_nil_r. reflexivity.
+Qed.
+
+Lemma escape_value_char_field c : final zspec_step ZsField (apply_chain zsh_escape_value_chain [c]) = ZsField.
+Proof.
+  destruct (in_dec N.eq_dec c (keys zsh_escape_value_chain)) as [Hin|Hout].
+  - cbn in Hin. repeat (destruct Hin as [<-|Hin]; [reflexivity|]). destruct Hin.
+  - rewrite apply_chain_other by (reflexivity || assumption).
+    cbn [final zspec_step fst]. destruct (c =? 92) eqn:E.
+    + exfalso. apply Hout. apply N.eqb_eq in E. subst. cbn. tauto.
+    + destruct (c =? 58); reflexivity.
+Qed.
+Lemma pres2_escape_value s : pres2 is_field is_field (zsh_escape_value s).
+Proof.
+  unfold zsh_escape_value. rewrite apply_chain_charwise by reflexivity.
+  induction s as [|c s IH]; [apply pres2_nil|]. cbn [flat_map].
+  apply (pres2_app is_field is_field is_field); [|exact IH].
+  intros [] H; try discriminate. rewrite escape_value_char_field. reflexivity.
+Qed.
+
+Lemma run2_tip_entry q : tame (pv_name (fst q)) = true -> run2_to is_field is_field (tip_entry q).
+Proof.
+  intros Ht. unfold tip_entry.
+  apply (run2_app is_field is_field is_field [Zx (zsh_escape_value (pv_name (fst q)) ++ lit "\:""")]).
+  { apply run2_zx; [rewrite nosq_app, (nosq_escape_value _ Ht); reflexivity|].
+    apply (pres2_app is_field is_field is_field); [apply pres2_escape_value|lit_pres2]. }
+  apply (run2_app is_field is_field is_field [Zh (text_or_default (snd q))]); [apply run2_zh_field|].
+  apply run2_zx; [reflexivity|lit_pres2].
+Qed.
+
+Lemma run2_zjoin_field l : (forall x, In x l -> run2_to is_field is_field x) -> run2_to is_field is_field (zjoin znl l).
+Proof.
+  induction l as [|x t IH]; intros H; [apply run2_nil|].
+  rewrite zjoin_cons. destruct t as [|y t']; [apply H; left; reflexivity|].
+  apply (run2_app is_field is_field is_field); [apply H; left; reflexivity|].
+  apply (run2_app is_field is_field is_field); [apply run2_zx; [reflexivity|lit_pres2]|].
+  apply IH. intros z Hz. apply H. right. exact Hz.
+Qed.
+
+Lemma tame_intercalate l : (forall x, In x l -> tame x = true) -> tame (intercalate (lit " ") l) = true.
+Proof.
+  induction l as [|x t IH]; intros H; [reflexivity|]. cbn [intercalate].
+  destruct t as [|y t']; [apply H; left; reflexivity|].
+  rewrite !tame_app, (H x (or_introl eq_refl)), IH; [reflexivity|]. intros z Hz. apply H. right. exact Hz.
+Qed.
+
+Lemma hint_field h s : zhint_completion h = Some s -> nosq s = true /\ pres2 is_field is_field s.
+Proof. destruct h; intros E; inversion E; subst; (split; [reflexivity|lit_pres2]). Qed.
+
+Lemma run2_zvalue_completion p val :
+  tame_arg (fst p) = true -> zvalue_completion p = Some val -> run2_to is_field is_field val.
+Proof.
+  intros Ht. unfold zvalue_completion. destruct (possible_values (fst p)) as [values|] eqn:Ev.
+  - destruct (existsb _ _); intros E; apply Some_inj in E; subst val.
+    + apply (run2_app is_field is_field is_field [Zx (lit "((")]); [apply run2_zx; [reflexivity|lit_pres2]|].
+      apply (run2_app is_field is_field is_field); [|apply run2_zx; [reflexivity|lit_pres2]].
+      apply run2_zjoin_field. intros x Hx. apply in_map_iff in Hx. destruct Hx as (q & <- & Hq).
+      apply run2_tip_entry. apply filter_In in Hq. destruct Hq as [Hq _]. destruct q as [pv h]. cbn [fst].
+      apply zipd_in_l in Hq. exact (tame_pvs (fst p) values pv Ht Ev Hq).
+    + assert (Hn : tame (intercalate (lit " ") (map pv_name (filter (fun pv => negb (pv_hide pv)) values))) = true).
+      { apply tame_intercalate. intros x Hx. apply in_map_iff in Hx. destruct Hx as (pv & <- & Hpv). apply filter_In in Hpv.
+        apply (tame_pvs (fst p) values pv Ht Ev (proj1 Hpv)). }
+      apply run2_zx; [rewrite !nosq_app, (tame_nosq _ Hn); reflexivity|].
+      apply (pres2_app is_field is_field is_field); [lit_pres2|].
+      apply (pres2_app is_field is_field is_field); [apply pres2_tame_field; exact Hn|lit_pres2].
+  - destruct (zhint_completion (a_get_hint (fst p))) as [s|] eqn:Eh; intros E; [|discriminate E].
+    apply Some_inj in E. subst val. destruct (hint_field _ _ Eh) as [H1 H2]. apply run2_zx; assumption.
+Qed.
+
+Lemma run2_concat_repeat P x n : run2_to P P x -> run2_to P P (List.concat (repeat x n)).
+Proof.
+  intros H. induction n as [|n IH]; [apply run2_nil|]. cbn [repeat List.concat]. apply (run2_app P P P); assumption.
+Qed.
+Lemma run2_opt_vc p : tame_arg (fst p) = true -> run2_to is_field is_field (opt_vc p).
+Proof.
+  intros Ht. unfold opt_vc. apply run2_concat_repeat.
+  destruct (zvalue_completion p) as [val|] eqn:E.
+  - apply (run2_app is_field is_field is_field [Zx (lit ": :")]); [apply run2_zx; [reflexivity|lit_pres2]|].
+    eapply run2_zvalue_completion; eassumption.
+  - apply run2_zx; [reflexivity|lit_pres2].
+Qed.
+
+Lemma tame_multiple a : tame (multiple_of a) = true.
+Proof. unfold multiple_of. destruct (a_action a); reflexivity. Qed.
+
+(** the head of an option / flag spec: [*], the dashes, the name, ([+] or [=]), the opening bracket *)
+Lemma spec_head_pres m x y : tame m = true -> tame x = true -> tame y = true ->
+  nosq ([] ++ m ++ x ++ y ++ [91]) = true /\ pres2 is_pre slot_ok ([] ++ m ++ x ++ y ++ [91]).
+Proof.
+  intros Hm Hx Hy. split.
+  - cbn [app]. rewrite !nosq_app, (tame_nosq _ Hm), (tame_nosq _ Hx), (tame_nosq _ Hy). reflexivity.
+  - cbn [app]. apply (pres2_app is_pre nob slot_ok).
+    { intros s Hs. apply (pres2_tame_nob m Hm). destruct s; try discriminate; reflexivity. }
+    apply (pres2_app nob nob slot_ok); [apply pres2_tame_nob; exact Hx|].
+    apply (pres2_app nob nob slot_ok); [apply pres2_tame_nob; exact Hy|lit_pres2].
+Qed.
+
+Lemma run2_opt_short_line c g p s st :
+  tame_arg (fst p) = true -> tame s = true -> zbare st = true ->
+  exists s2, zrun2 st ZsPre (opt_short_line c g p s) = Some (ZBS, s2).
+Proof.
+  intros Ht Hs Hst. unfold opt_short_line. rewrite arg_conflicts_nil.
+  destruct (spec_head_pres (multiple_of (fst p)) (lit "-") (s ++ lit "+") (tame_multiple _) eq_refl) as [Hn Hp].
+  { rewrite tame_app, Hs. reflexivity. }
+  rewrite <- !app_assoc in Hn, Hp.
+  assert (R : run2_to slot_ok is_field ([Zh (text_or_default (ad_help (snd p))); Zx (lit "]")] ++ opt_vc p)).
+  { apply (run2_app slot_ok slot_ok is_field [Zh (text_or_default (ad_help (snd p)))]); [apply run2_zh|].
+    apply (run2_app slot_ok is_field is_field [Zx (lit "]")]); [apply run2_zx; [reflexivity|lit_pres2]|].
+    apply run2_opt_vc; exact Ht. }
+  destruct (R _ (Hp ZsPre eq_refl)) as (s2 & R2 & _).
+  exists s2. apply (zrun2_line _ _ st ZsPre s2 Hst Hn R2).
+Qed.
+Lemma run2_opt_long_line c g p s st :
+  tame_arg (fst p) = true -> tame s = true -> zbare st = true ->
+  exists s2, zrun2 st ZsPre (opt_long_line c g p s) = Some (ZBS, s2).
+Proof.
+  intros Ht Hs Hst. unfold opt_long_line. rewrite arg_conflicts_nil.
+  destruct (spec_head_pres (multiple_of (fst p)) (lit "--") (s ++ lit "=") (tame_multiple _) eq_refl) as [Hn Hp].
+  { rewrite tame_app, Hs. reflexivity. }
+  rewrite <- !app_assoc in Hn, Hp.
+  assert (R : run2_to slot_ok is_field ([Zh (text_or_default (ad_help (snd p))); Zx (lit "]")] ++ opt_vc p)).
+  { apply (run2_app slot_ok slot_ok is_field [Zh (text_or_default (ad_help (snd p)))]); [apply run2_zh|].
+    apply (run2_app slot_ok is_field is_field [Zx (lit "]")]); [apply run2_zx; [reflexivity|lit_pres2]|].
+    apply run2_opt_vc; exact Ht. }
+  destruct (R _ (Hp ZsPre eq_refl)) as (s2 & R2 & _).
+  exists s2. apply (zrun2_line _ _ st ZsPre s2 Hst Hn R2).
+Qed.
+
+Lemma run2_zflag_line c g p dashes name st :
+  tame dashes = true -> tame name = true -> zbare st = true ->
+  exists s2, zrun2 st ZsPre (zflag_line c g p dashes name) = Some (ZBS, s2).
+Proof.
+  intros Hd Hn Hst. unfold zflag_line. rewrite arg_conflicts_nil.
+  destruct (spec_head_pres (multiple_of (fst p)) dashes name (tame_multiple _) Hd Hn) as [Hq Hp].
+  destruct (proj2 run2_zh (text_or_default (ad_help (snd p))) _ (Hp ZsPre eq_refl)) as (s2 & R2 & _).
+  eexists. apply (zrun2_line' _ [Zh (text_or_default (ad_help (snd p)))] (lit "]") st ZsPre s2 Hst Hq eq_refl R2).
+Qed.
+
+Lemma run2_positional_line card p st :
+  In card [lit "*:"; lit ":"; []] -> tame_arg (fst p) = true -> tame (a_id (fst p)) = true -> zbare st = true ->
+  exists s2, zrun2 st ZsPre (positional_line card p) = Some (ZBS, s2).
+Proof.
+  intros Hc Ht Hi Hst. unfold positional_line.
+  assert (Hcard : tame card = true /\ pres2 is_pre is_field (card ++ lit ":")).
+  { destruct Hc as [<-|[<-|[<-|[]]]]; (split; [reflexivity|lit_pres2]). }
+  destruct Hcard as [Hct Hcp].
+  assert (Hn : nosq (card ++ lit ":" ++ a_id (fst p)) = true).
+  { rewrite !nosq_app, (tame_nosq _ Hct), (tame_nosq _ Hi). reflexivity. }
+  assert (Hp : pres2 is_pre is_field (card ++ lit ":" ++ a_id (fst p))).
+  { rewrite app_assoc. apply (pres2_app is_pre is_field is_field); [exact Hcp|apply pres2_tame_field; exact Hi]. }
+  assert (R : run2_to is_field is_field
+                ((match ad_help (snd p) with Some t => [Zp t] | None => [] end) ++ [Zx (lit ":")]
+                 ++ (match zvalue_completion p with Some v => v | None => [] end))).
+  { apply (run2_app is_field is_field is_field); [destruct (ad_help (snd p)); [apply run2_zp|apply run2_nil]|].
+    apply (run2_app is_field is_field is_field [Zx (lit ":")]); [apply run2_zx; [reflexivity|lit_pres2]|].
+    destruct (zvalue_completion p) as [val|] eqn:E; [eapply run2_zvalue_completion; eassumption|apply run2_nil]. }
+  destruct (R _ (Hp ZsPre eq_refl)) as (s2 & R2 & _). exists s2.
+  replace ([Zx (lit "'" ++ card ++ lit ":" ++ a_id (fst p))] ++
+           (match ad_help (snd p) with Some t => [Zp t] | None => [] end) ++ [Zx (lit ":")] ++
+           (match zvalue_completion p with Some v => v | None => [] end) ++ [Zx (lit "' \")])
+    with (Zx (39 :: card ++ lit ":" ++ a_id (fst p)) ::
+          ((match ad_help (snd p) with Some t => [Zp t] | None => [] end) ++ [Zx (lit ":")] ++
+           (match zvalue_completion p with Some v => v | None => [] end)) ++ [Zx (lit "' \")])
+    by (cbn [app]; rewrite <- !app_assoc; reflexivity).
+  apply (zrun2_line _ _ st ZsPre s2 Hst Hn). exact R2.
+Qed.
+
+Lemma positional_lines_cards hs : forall l ce line,
+  In line (positional_lines hs ce l) -> exists card p, In p l /\ In card [lit "*:"; lit ":"; []] /\ line = positional_line card p.
+Proof.
+  induction l as [|p l IH]; intros ce line Hl; [destruct Hl|]. cbn [positional_lines] in Hl.
+  assert (Hrec : forall ce', In line (positional_lines hs ce' l) ->
+                   exists card q, In q (p :: l) /\ In card [lit "*:"; lit ":"; []] /\ line = positional_line card q).
+  { intros ce' H. destruct (IH ce' line H) as (card & q & Hq & Hc & E). exists card, q. split; [right; exact Hq|tauto]. }
+  destruct (ce && (arg_is_last (fst p) || (1 <? a_max_values (fst p)))); [apply (Hrec _ Hl)|].
+  destruct ((1 <? a_max_values (fst p)) && negb hs).
+  - unfold arg_terminator in Hl. destruct Hl as [<-|Hl]; [|apply (Hrec _ Hl)].
+    exists (lit "*:"), p. split; [left; reflexivity|]. split; [left; reflexivity|reflexivity].
+  - destruct (negb (a_required (fst p))); (destruct Hl as [<-|Hl]; [|apply (Hrec _ Hl)]).
+    + exists (lit ":"), p. split; [left; reflexivity|]. split; [right; left; reflexivity|reflexivity].
+    + exists [], p. split; [left; reflexivity|]. split; [right; right; left; reflexivity|reflexivity].
+Qed.
+
+Lemma run2_describe_entry about w st :
+  tame w = true -> zbare st = true -> exists s2, zrun2 st ZsPre (describe_entry about w) = Some (ZBS, s2).
+Proof.
+  intros Hw Hst. unfold describe_entry.
+  assert (Hn : nosq (w ++ lit ":") = true) by (rewrite nosq_app, (tame_nosq _ Hw); reflexivity).
+  assert (Hp : pres2 is_pre slot_ok (w ++ lit ":")).
+  { apply (pres2_app is_pre nob slot_ok); [|lit_pres2].
+    intros s Hs. apply (pres2_tame_nob w Hw). destruct s; try discriminate; reflexivity. }
+  destruct (proj2 run2_zh (text_or_default about) _ (Hp ZsPre eq_refl)) as (s2 & R2 & _).
+  exists s2. apply (zrun2_line _ [Zh (text_or_default about)] st ZsPre s2 Hst Hn R2).
+Qed.
+
+(** the spec lines of a command: its option, flag and positional specs and the [_describe] items of its subcommands *)
+Definition spec_line (c : cmd) (d : cdesc) (g : option cmd) (line : list zpiece) : Prop :=
+  (exists p, In p (zipd ad0 (c_args c) (cd_args d)) /\ (In line (opt_lines c g p) \/ In line (flag_lines c g p))) \/
+  In line (positional_lines (has_subcommands c) false (filter is_pos (zipd ad0 (c_args c) (cd_args d)))) \/
+  (exists sc sd w, In (sc, sd) (zipd cd0 (c_subs c) (cd_subs d)) /\ In w (get_name_and_visible_aliases sc) /\ line = describe_entry (cd_about sd) w).
+
+(** every spec line of a tame command runs at BOTH levels: each [escape_help] slot is met inside quotes and in the
+    description or a field of the spec, each positional's help inside quotes and in a field *)
+Theorem zsh_spec_lines_run2 c d g line st :
+  ztame_cmd c = true -> spec_line c d g line -> zbare st = true ->
+  exists s2, zrun2 st ZsPre line = Some (ZBS, s2).
+Proof.
+  intros Ht Hl Hst. destruct Hl as [(p & Hp & Hl)|[Hl|(sc & sd & w & Hin & Hw & ->)]].
+  - pose proof (ztame_arg_tame _ (ztame_args c d p Ht Hp)) as Hta. destruct Hl as [Hl|Hl].
+    + unfold opt_lines in Hl. apply in_app_or in Hl. destruct Hl as [Hl|Hl].
+      * destruct (get_short_and_visible_aliases (fst p)) as [ss|] eqn:E; [|destruct Hl]. apply in_map_iff in Hl.
+        destruct Hl as (s & <- & Hs). apply run2_opt_short_line; [exact Hta|eapply tame_shorts; eassumption|exact Hst].
+      * destruct (get_long_and_visible_aliases (fst p)) as [ss|] eqn:E; [|destruct Hl]. apply in_map_iff in Hl.
+        destruct Hl as (s & <- & Hs). apply run2_opt_long_line; [exact Hta|eapply tame_longs; eassumption|exact Hst].
+    + rewrite flag_lines_spellings in Hl. apply in_map_iff in Hl. destruct Hl as (x & <- & Hx).
+      destruct (tame_flag_spellings _ _ Hta Hx) as [H1 H2]. apply run2_zflag_line; assumption.
+  - destruct (positional_lines_cards _ _ _ _ Hl) as (card & p & Hp & Hc & ->). apply filter_In in Hp.
+    pose proof (ztame_args c d p Ht (proj1 Hp)) as Hz. unfold ztame_arg in Hz. apply andb_true_iff in Hz.
+    apply run2_positional_line; tauto.
+  - apply run2_describe_entry; [|exact Hst]. apply zipd_in_l in Hin. exact (ztame_names sc w (ztame_sub _ _ Ht Hin) Hw).
+Qed.
+
+(** level-2 invariance: a spec line and any line with the same fixed text (the line the generator writes for other
+    texts) have the same [_arguments]-level token skeleton and end in the same level-2 state *)
+Theorem zsh_spec_line_level2 c d g line line' st :
+  ztame_cmd c = true -> spec_line c d g line -> zbare st = true -> map zperase line = map zperase line' ->
+  skeleton (events zspec_step ZsPre (payload line st)) = skeleton (events zspec_step ZsPre (payload line' st)) /\
+  final zspec_step ZsPre (payload line st) = final zspec_step ZsPre (payload line' st).
+Proof.
+  intros Ht Hl Hst E. destruct (zsh_spec_lines_run2 c d g line st Ht Hl Hst) as (s2 & R).
+  exact (level2_invariance line line' st ZsPre _ R E).
+Qed.
+
+(** the lines the generator writes for other texts of the same presence shape have the same fixed text *)
+Theorem spec_lines_fixed_text c g a ad card about w :
+  opt_lines c g (a, erase_adesc ad) = map (map zperase) (opt_lines c g (a, ad)) /\
+  flag_lines c g (a, erase_adesc ad) = map (map zperase) (flag_lines c g (a, ad)) /\
+  positional_line card (a, erase_adesc ad) = map zperase (positional_line card (a, ad)) /\
+  describe_entry (erase_opt about) w = map zperase (describe_entry about w).
+Proof.
+  split; [apply opt_lines_erase|]. split; [apply flag_lines_erase|]. split; [apply positional_line_erase|].
+  unfold describe_entry. cbn [map zperase]. rewrite text_or_default_erase. reflexivity.
+Qed.
+
+(** level 3 (the [((v\:"tip"))] action is eval'd; the tooltip then stands inside double quotes): escape_help leaves a
+    double quote as it is, and there it ends the string -- the recorded finding [C17-zsh-tooltip-dquote] *)
+Lemma zsh_tooltip_dquote_boundary :
+  zsh_escape_help [34] = [34] /\ zsh_l1 [34] = [34] /\ final sh_step ZDQ [34] = ZW.
+Proof. repeat split. Qed.
